@@ -11,7 +11,7 @@ import ast
 from ..core import Func, Program, Report, src
 
 POS_PARAMS = {"from_", "to", "pos", "pos_a", "pos_b", "cur", "end", "start", "node_start", "start_pos"}
-POS_ATTRS = {"node_size", "size", "pos", "parent_offset"}
+POS_ATTRS = {"node_size", "size", "pos", "parent_offset", "text_offset"}
 TEXTNODE = "prosemirror.model.node.TextNode"
 
 
